@@ -564,6 +564,24 @@ func aGenBurst(t *rapid.T, e *aEnv, db, key int, fresh *int) []aOp {
 		}
 		ops = append(ops, op)
 	}
+	if holders && n >= 200 && pct(t, "burstDrainHead") < 35 {
+		// release the holders in grant order until holders of the map-backed overflow part have been promoted to the
+		// head, release a promoted one, and lock with its id again (its index entry must be gone by then)
+		keep := rapid.IntRange(5, 40).Draw(t, "burstKeep")
+		for i := 0; i < n-keep; i++ {
+			ops = append(ops, aOp{K: "unlock", C: 0, Db: db, Key: key, Id: ops[i].Id})
+		}
+		for i := rapid.IntRange(1, 3).Draw(t, "burstPromoted"); i > 0 && keep-i >= 0; i-- {
+			victim := ops[n-keep+i-1]
+			ops = append(ops, aOp{K: "unlock", C: 0, Db: db, Key: key, Id: victim.Id})
+			ops = append(ops, aOp{K: "lock", C: 0, Db: db, Key: key, Id: victim.Id, Cnt: 0xffff, E: rapid.SampledFrom([]int{3, 30}).Draw(t, "burstRelockE")})
+			if pct(t, "burstDupUnlock") < 40 {
+				ops = append(ops, aOp{K: "unlock", C: 0, Db: db, Key: key, Id: victim.Id})
+				ops = append(ops, aOp{K: "unlock", C: 0, Db: db, Key: key, Id: victim.Id})
+			}
+		}
+		return ops
+	}
 	if holders && n > 130 {
 		// release holds that sit in the map-backed part of the holder queue (not at its head), unlock them again
 		// and try to lock with their ids again
